@@ -177,6 +177,28 @@ def need_flags():
     out.append(("scan/need_flags/seed_is_flagged_attached_steps",
                 seed == "INSERT INTO check_after ( i ) SELECT step . node FROM step JOIN node ON step . node = node . i "
                         "WHERE NOT node . detached AND step . _check_after", seed))
+    # row events that change what the need of a step is computed from, and the steps that must be flagged for it
+    # (unconditionally: no WHEN clause).  A new or removed edge file -> step changes the need of the *producers* of the
+    # file: they are reached only by propagation from the consuming step (insert: both ends are flagged, the sink
+    # seeds the propagation) or, once the edge is gone, directly (delete: the sources of the old source; F11)
+    from contracts.C10_dispatch import all_triggers
+
+    trg = all_triggers()
+    wanted = [
+        ("dependency.INSERT.both_ends", "INSERT", "dependency", None,
+         ["UPDATE step SET _check_after = 1 WHERE node IN ( NEW . source , NEW . sink ) ;",
+          "UPDATE step SET _check_after = 1 WHERE node IN ( NEW . sink , NEW . source ) ;"]),
+        ("dependency.DELETE.both_ends", "DELETE", "dependency", None,
+         ["UPDATE step SET _check_after = 1 WHERE node IN ( OLD . source , OLD . sink ) ;",
+          "UPDATE step SET _check_after = 1 WHERE node IN ( OLD . sink , OLD . source ) ;"]),
+        ("dependency.DELETE.producers_of_the_dropped_input", "DELETE", "dependency", None,
+         ["UPDATE step SET _check_after = 1 WHERE node IN ( SELECT source FROM dependency WHERE sink = OLD . source ) ;"]),
+        ("step.UPDATE.duration", "UPDATE", "step", "duration", ["UPDATE step SET _check_after = 1 WHERE node = NEW . node ;"]),
+    ]
+    for name, ev, table, col, stmts in wanted:
+        hit = [n for n, (e, t, c_, when, body) in trg.items() if e == ev and t == table and (col is None or c_ == col)
+               and when is None and any(st in body for st in stmts)]
+        out.append((f"scan/need_flags/trigger/{name}", bool(hit), f"triggers: {hit}"))
     rec = _calls_in("stepup/core/workflow.py", "Workflow.reconcile_targets")
     src, node = extract.find_def("stepup/core/workflow.py", "Workflow.reconcile_targets")
     text = ast.unparse(node)
